@@ -282,6 +282,11 @@ impl Executor {
 
                     let byte_vector: Vec<u8> = bytes.into();
                     let hash: tmelcrypt::HashVal = tmelcrypt::hash_single(&byte_vector);
+                    #[cfg(melstf_verif)]
+                    {
+                        crate::verif_hooks::BYTES_MATERIALISED.fetch_add(byte_vector.len() as u64, std::sync::atomic::Ordering::Relaxed);
+                        crate::verif_hooks::log_call(crate::verif_hooks::OracleCall::Hash(byte_vector.clone(), hash.0.to_vec()));
+                    }
 
                     log::trace!("Hash: {:?}", &hash.0);
 
@@ -312,6 +317,11 @@ impl Executor {
 
                     let signature_byte_vector: Vec<u8> = signature_bytes.into();
                     log::trace!("GOT TO END");
+                    #[cfg(melstf_verif)]
+                    {
+                        crate::verif_hooks::BYTES_MATERIALISED.fetch_add((public_key_byte_vector.len() + message_byte_vector.len() + signature_byte_vector.len()) as u64, std::sync::atomic::Ordering::Relaxed);
+                        crate::verif_hooks::log_call(crate::verif_hooks::OracleCall::SigOk(public_key_byte_vector.clone(), message_byte_vector.clone(), signature_byte_vector.clone(), public_key.verify(&message_byte_vector, &signature_byte_vector)));
+                    }
                     Some(Value::from_bool(public_key.verify(&message_byte_vector, &signature_byte_vector)))
                 })?,
                 // storage access
@@ -545,6 +555,8 @@ impl Executor {
 
                     let bytes = input_byte_vector.into_bytes()?;
                     let bytes_vector: Vec<u8> = bytes.into();
+                    #[cfg(melstf_verif)]
+                    crate::verif_hooks::BYTES_MATERIALISED.fetch_add(bytes_vector.len() as u64, std::sync::atomic::Ordering::Relaxed);
 
                     let byte_vector_option: Option<[u8; 32]> = bytes_vector.try_into().ok();
 
